@@ -431,7 +431,7 @@ def corr_core(prop, parts):
         cs.append(_corr_generic("treecases", prop, "Trees.jrun - the composite model: sharded, batched vector and matrix selectors (incremental window scan), "
                                 "joins with their reused tables, per-sample operators, count and accumulator tables - evaluated inside Coq on whole "
                                 "nested queries (depth up to 4: + - and the comparisons with on/ignoring/group_left/group_right/bool, unary minus, abs, "
-                                "arithmetic and comparisons with a literal, count/sum/max/min/group by/without, count/last/max/min/sum_over_time, "
+                                "arithmetic and comparisons with a literal, count/sum/max/min/group by/without, topk/bottomk with a literal k (cases with a tie inside a group skipped), count/last/max/min/sum_over_time, "
                                 "changes, resets, present_over_time of x[d] offset o; @ t / @ start() / @ end() on vector and matrix selectors with the "
                                 "step-invariant operator above them) vs the engine's result; values are multiples of 1/4 "
                                 "carried as integers", 30, 300, shards_quick=8, shards_thorough=16))
